@@ -26,6 +26,9 @@ type LibPt struct {
 	V   FV    `json:"v"`
 }
 
+// absAgeBase marks an Age that stands for an absolute instant: t = Age - absAgeBase.
+const absAgeBase = int64(1) << 40
+
 // LibOp is one operation of a library history.
 type LibOp struct {
 	Op       string  `json:"op"` // upd many adv sync reopen abandon
@@ -41,8 +44,9 @@ type LibCase struct {
 	Layout  Layout  `json:"layout"`
 	Clock0  int64   `json:"clock0"`
 	Ops     []LibOp `json:"ops"`
-	Windows int     `json:"windows"` // random windows per archive after each step
-	WSeed   uint64  `json:"wseed"`   // seed of the window draws (part of the case)
+	Windows int     `json:"windows"`        // random windows per archive after each step
+	WSeed   uint64  `json:"wseed"`          // seed of the window draws (part of the case)
+	Over    int64   `json:"over,omitempty"` // >0: the path already holds a never-written file whose last archive is this many points longer; it is created again in place (open flags without O_EXCL)
 }
 
 type libSim struct{}
@@ -78,6 +82,9 @@ func (libSim) Gen(prop, tier string, r *rand.Rand) interface{} {
 	}
 	l := genLayout(r, class)
 	c := &LibCase{Layout: l, Clock0: genClock0(r, l), Windows: 4, WSeed: r.Uint64()}
+	if prop == "C06" && chance(r, 0.06) {
+		c.Over = between(r, 1, 50)
+	}
 	nops := int(between(r, 3, 40))
 	if class == "prod" || class == "page" {
 		nops = int(between(r, 3, 25))
@@ -223,6 +230,8 @@ func genAge(r *rand.Rand, prop string, l Layout, id int, single bool) int64 {
 				return -between(r, 1, 3*l.Archs[0].S) // future-dated point in a batch
 			case 1:
 				return int64(946684800) + between(r, 0, 40*365*86400) // decades old (timestamps near 1970..2010)
+			case 2:
+				return absAgeBase + pick(r, int64(0), 0, 1, l.Archs[0].S) // the epoch itself: timestamp 0
 			}
 			return 0
 		case 3:
@@ -258,6 +267,16 @@ func genAge(r *rand.Rand, prop string, l Layout, id int, single bool) int64 {
 	}
 	if !single && prop == "C01" && chance(r, 0.03) {
 		return -between(r, 1, 2*a.S)
+	}
+	if !single && prop == "C02" && chance(r, 0.04) {
+		// a point slightly ahead of the receiver's clock: stored like any other
+		// point of the batch, hence one of "the values currently stored" when
+		// its coarser interval is recomputed
+		hi := 2 * a.S
+		if id+1 < n {
+			hi = l.Archs[id+1].S
+		}
+		return -between(r, 1, hi)
 	}
 	x := between(r, 0, a.R()-1)
 	switch r.IntN(4) {
@@ -374,7 +393,18 @@ func (libSim) Run(e *Env, ci interface{}) {
 	lr.path = filepath.Join(e.Dir, "h.wsp")
 	SetClock(e, c.Clock0)
 	wt.Now = time.Now
-	db, err := c.Layout.create(lr.path)
+	var copts []wt.Option
+	if c.Over > 0 && c.Over <= 1000 {
+		big := Layout{Method: c.Layout.Method%6 + 1, Xff: c.Layout.Xff, Archs: append([]Arch(nil), c.Layout.Archs...)}
+		big.Archs[len(big.Archs)-1].N += c.Over
+		if odb, oerr := big.create(lr.path); oerr == nil {
+			odb.Sync()
+			odb.Close()
+			copts = append(copts, wt.WithOpenFileFlag(os.O_RDWR|os.O_CREATE))
+			e.Probe("created-in-place-over-a-longer-file")
+		}
+	}
+	db, err := c.Layout.create(lr.path, copts...)
 	if err != nil {
 		e.Violate(e.Prop+".create", "Create(%s) failed: %v", c.Layout, err)
 		return
@@ -417,6 +447,9 @@ func (lr *libRun) abs(op LibOp, now int64) []model.Pt {
 	out := make([]model.Pt, len(op.Pts))
 	for i, p := range op.Pts {
 		out[i] = model.Pt{T: now - p.Age, V: float64(p.V)}
+		if p.Age >= absAgeBase {
+			out[i].T = p.Age - absAgeBase // an absolute instant near the epoch (0, 1, ...)
+		}
 	}
 	return out
 }
@@ -488,7 +521,7 @@ func (lr *libRun) step(i int, op LibOp) bool {
 	}
 	pts := lr.abs(op, now)
 	for _, p := range pts {
-		if p.T <= 0 || p.T >= math.MaxUint32 {
+		if p.T < 0 || p.T >= math.MaxUint32 {
 			e.Skip("timestamp-out-of-domain")
 			return false
 		}
@@ -935,10 +968,13 @@ func (lr *libRun) c02Write(op LibOp, pts []model.Pt, now int64, pre, post []mode
 			if st.Known > 0 && model.XffBoundary(int64(st.Known), int64(st.Total), xff) {
 				e.Probe("xff-boundary-where-float32-and-rational-differ")
 			}
-			if verdict > 0 && math.IsNaN(st.Value) {
+			if verdict > 0 && math.IsNaN(st.Value) && (method == 4 || method == 5) {
 				// a written NaN counts as a known value (its interval matches), as in
-				// both Whisper implementations; what the aggregate of a set containing
-				// NaN is, the statement does not say: only "stored" is checked
+				// both Whisper implementations. Sum, average, last and first of a set
+				// containing NaN are fixed by floating-point arithmetic (NaN, NaN, the
+				// last, the first value) and are compared like any other aggregate;
+				// what the maximum or minimum of such a set is, the statement does not
+				// say: only "stored" is checked
 				e.Probe("aggregate-over-a-written-NaN")
 				want[idx] = model.Slot{I: st.T, V: math.NaN()}
 				valueFree[idx] = true
